@@ -99,6 +99,17 @@ func (in *instance) do(op *Op) (out string) {
 		}
 		in.hosts.Delete(op.Pattern)
 		return "ok"
+	case "hreg":
+		if in.hosts == nil {
+			return "n/a"
+		}
+		in.hosts.RegisterInterceptor(interceptorFunc(op.Name), op.Name)
+		return "ok"
+	case "syntax": // package-level helpers: they parse with the package's own, empty, interceptor set
+		return fmt.Sprint(mux.CheckSyntax(op.Pattern) == nil)
+	case "pkgurl":
+		u, err := mux.URL(op.Pattern, op.Params)
+		return fmt.Sprint(u, err == nil)
 	case "hmatch":
 		if in.hosts == nil {
 			return "n/a"
@@ -120,13 +131,25 @@ func genInstanceScript(r *Rng, kind string, t int, n int) []Op {
 	for i := 0; i < n; i++ {
 		op := Op{T: t}
 		if kind == "hosts" {
-			switch r.Intn(4) {
+			switch r.Intn(6) {
 			case 0, 1:
-				op.K, op.Pattern = "hadd", pick(r, []string{"a.com", "b.com", "{sub}.c.com", "d.com", "e.com", "f.com", "{n:\\d+}.g.com"})
+				op.K, op.Pattern = "hadd", pick(r, []string{"a.com", "b.com", "{sub}.c.com", "d.com", "e.com", "f.com", "{n:\\d+}.g.com", "{n:digit}.h.com", "{w:word}.i.com"})
 			case 2:
 				op.K, op.Pattern = "hdel", pick(r, []string{"a.com", "b.com", "d.com"})
+			case 3:
+				// an interceptor registered on this instance only; the same rule text is a regexp elsewhere
+				op.K, op.Name = "hreg", pick(r, []string{"digit", "word"})
 			default:
-				op.K, op.Req = "hmatch", &Req{Host: pick(r, []string{"a.com", "x.c.com", "7.g.com", "zz.com", "B.com:80"})}
+				op.K, op.Req = "hmatch", &Req{Host: pick(r, []string{"a.com", "x.c.com", "7.g.com", "zz.com", "B.com:80", "42.h.com", "digit.h.com", "ab.i.com", "word.i.com"})}
+			}
+			ops = append(ops, op)
+			continue
+		}
+		if r.Pct(8) {
+			if r.Pct(50) {
+				op.K, op.Pattern = "syntax", pick(r, []string{"/x/{id:digit}", "/x/{id:word}/y", "/x/{id:[}", "/x/{id}"})
+			} else {
+				op.K, op.Pattern, op.Params = "pkgurl", pick(r, []string{"/x/{id:digit}", "/x/{id:word}/y", "/x/{id}"}), map[string]string{"id": pick(r, []string{"7", "ab", "digit"})}
 			}
 			ops = append(ops, op)
 			continue
@@ -172,6 +195,46 @@ func genC07(r *Rng, idx int, tier string) *World {
 			w.Tasks = append(w.Tasks, genInstanceScript(r, kind, t, r.Range(2, 6)))
 		}
 		w.Extra["kinds"] = strings.Join(kinds, ",")
+	case k < 8 && r.Pct(45):
+		// c with a generated history: the router was built by any sequence of Handle/Remove/Clean (often
+		// ending in a removal, on pools with five or more literal siblings), and is then only served
+		w.Variant = "c"
+		mix := defaultMix
+		mix.reqLo, mix.reqHi = 10, 18
+		mix.pRemove, mix.pRemoveM, mix.pClean, mix.pPClean = 16, 10, 4, 5
+		tw := genTableWorld(r, mix)
+		w.Opts = tw.Opts
+		w.Opts.Name = "q"
+		w.Pool.Fresh, w.Pool.Newest, w.Pool.Oldest, w.Pool.Rand, w.Pool.Drop = pick(r, []int{0, 1}), 4, 1, 2, pick(r, []int{0, 15})
+		var reqs []Op
+		var handled []string
+		for _, op := range tw.Ops {
+			if isAdmin(op.K) {
+				op.T = 0
+				w.Setup = append(w.Setup, op)
+				if op.K == "handle" {
+					handled = append(handled, op.Pattern)
+				}
+			} else if op.K == "req" {
+				reqs = append(reqs, op)
+			}
+		}
+		if len(handled) > 0 && r.Pct(50) {
+			w.Setup = append(w.Setup, Op{K: "remove", Pattern: pick(r, handled)})
+		}
+		if len(reqs) == 0 {
+			reqs = append(reqs, Op{K: "req", Req: &Req{Method: "GET", Path: "/"}})
+		}
+		nT := r.Range(2, 6)
+		for t := 0; t < nT; t++ {
+			var ops []Op
+			for i := r.Range(1, 4); i > 0; i-- {
+				q := reqs[r.Intn(len(reqs))]
+				rq := *q.Req
+				ops = append(ops, Op{T: t, K: "req", Req: &rq}) // Params nil: own parameters are checked against the sequential replica only
+			}
+			w.Tasks = append(w.Tasks, ops)
+		}
 	case k < 8:
 		w.Variant = "c"
 		w.Opts = RouterOpts{Name: "q", Lock: r.Pct(50), Interceptors: []string{"digit"}, Trace: r.Pct(30), CORS: pick(r, []string{"", "list", "list", "cred"})}
@@ -389,7 +452,11 @@ func execC07(w *World, st *Stats) (*Violation, RunInfo) {
 				s.second = snapshotParams(route.Params())
 			})
 			out := o.Key()
-			if o.Kind == KRoute || o.Kind == KOptions || o.Kind == K405 {
+			if op.Params == nil {
+				if fmtParams(s.first) != fmtParams(s.second) {
+					out = fmt.Sprintf("viol:foreign-params:request %s saw %s on entry and %s after yielding", op.Req, fmtParams(s.first), fmtParams(s.second))
+				}
+			} else if o.Kind == KRoute || o.Kind == KOptions || o.Kind == K405 {
 				want := fmtParams(op.Params)
 				if fmtParams(s.first) != want || fmtParams(s.second) != want {
 					out = fmt.Sprintf("viol:foreign-params:request %s must see %s, saw %s on entry and %s after yielding", op.Req, want, fmtParams(s.first), fmtParams(s.second))
